@@ -9,6 +9,7 @@ import (
 	"encoding/base64"
 	"encoding/binary"
 	"fmt"
+	"google.golang.org/grpc/peer"
 	"net"
 	"sort"
 	"strings"
@@ -77,7 +78,8 @@ type CallCtx struct {
 	Method string
 	DB     string
 	Req    proto.Message
-	Pack   *Pack // for ReplicateMessage
+	Pack   *Pack  // for ReplicateMessage
+	Peer   string // remote address of the connection the call arrived on
 }
 
 type Server struct {
@@ -253,6 +255,9 @@ func (s *Server) begin(ctx context.Context, method, info string, req proto.Messa
 	s.mu.Lock()
 	s.seq++
 	cc := &CallCtx{Seq: s.seq, Method: method, DB: db, Req: req, Pack: pack}
+	if pr, ok := peer.FromContext(ctx); ok && pr.Addr != nil {
+		cc.Peer = pr.Addr.String() // the reader's and the writer's SDK clients use different connections
+	}
 	s.calls = append(s.calls, Call{Seq: cc.Seq, Method: method, DB: db, Auth: md(ctx, "authorization"), Info: info})
 	idx := len(s.calls) - 1
 	hook := s.Before
